@@ -283,6 +283,75 @@ def is_gap_closing(fn) -> bool:
     return all(EXIT not in g.reachable(first, avoid={h}) for h in heads.values())
 
 
+def shift_steps(fn):
+    """one verdict per gap-closing loop of the (canonical) removal helper:
+        later = gap.next_sub_offset()
+        while later in MAP.d:  partner = MAP.d[later]; delete(later); insert(gap <-> partner); gap, later = later, later.next_sub_offset()
+    -> [(direction, True | False | None, why)]; None when the loop body is not straight-line (no verdict).  The step is judged by
+    running the body symbolically: afterwards the gap must be the old `later`, `later` the sub-offset after the OLD `later`, the entry
+    deleted the one at `later`, and the entry inserted the old partner at the old gap (read before the deletion)."""
+    from ..norm import _Subst
+    import copy
+    out = []
+    for blk in [fn.body] + [getattr(n, f_) for n in ast.walk(fn) for f_ in ("body", "orelse") if isinstance(getattr(n, f_, None), list) and n is not fn]:
+        for i, lp in enumerate(blk):
+            if not isinstance(lp, ast.While) or lp.orelse:
+                continue
+            e = tmatch(lp.test, T("L_later in self._links.L_d"))
+            if e is None or e["L_d"] not in ("fwd", "bck"):
+                continue
+            later, d = e["L_later"], e["L_d"]
+            env, effects, order, follow = {}, [], [], True
+            for j, st in enumerate(lp.body):
+                if isinstance(st, ast.Assign) and len(st.targets) == 1 and isinstance(st.targets[0], ast.Name):
+                    env[st.targets[0].id] = _Subst(dict(env)).visit(copy.deepcopy(st.value))
+                    order.append(("bind", u(env[st.targets[0].id]), j))
+                elif isinstance(st, ast.Assign) and len(st.targets) == 1 and isinstance(st.targets[0], ast.Tuple) and isinstance(st.value, ast.Tuple) \
+                        and len(st.value.elts) == len(st.targets[0].elts) and all(isinstance(t, ast.Name) for t in st.targets[0].elts):
+                    vals = [_Subst(dict(env)).visit(copy.deepcopy(v)) for v in st.value.elts]
+                    for t, v in zip(st.targets[0].elts, vals):
+                        env[t.id] = v
+                elif isinstance(st, ast.Expr) and isinstance(st.value, ast.Call):
+                    c = _Subst(dict(env)).visit(copy.deepcopy(st.value))
+                    effects.append((u(c), j))
+                elif isinstance(st, ast.Expr) and isinstance(st.value, ast.Constant):
+                    continue
+                else:
+                    follow = False
+                    break
+            if not follow:
+                out.append((d, None, "the loop body is not a straight line"))
+                continue
+            gaps = [k for k, v in env.items() if k != later and u(v) == later]
+            if len(gaps) != 1:
+                out.append((d, False, f"no cursor takes over the old `{later}` (the vacated position is not advanced)"))
+                continue
+            gap = gaps[0]
+            if u(env.get(later, ast.Name(id=later))) != f"{later}.next_sub_offset()":
+                out.append((d, False, f"`{later}` becomes `{u(env.get(later, ast.Name(id=later)))}`, not the sub-offset after the one just moved"))
+                continue
+            read = f"self._links.{d}[{later}]"
+            dele = f"self._links.delete_left({later})" if d == "fwd" else f"self._links.delete_right({later})"
+            ins = ({f"self._links.insert_left({gap}, {read})", f"self._links.insert_right({read}, {gap})"} if d == "fwd"
+                   else {f"self._links.insert_left({read}, {gap})", f"self._links.insert_right({gap}, {read})"})
+            dj = [j for t, j in effects if t == dele]
+            ij = [j for t, j in effects if t in ins]
+            rj = [j for k, t, j in order if t == read]
+            if not dj or not ij:
+                out.append((d, False, f"the step does not delete the entry at `{later}` and re-insert its partner at `{gap}`: " + "; ".join(t for t, _ in effects)[:200]))
+                continue
+            if not rj or min(rj) > dj[0] or ij[0] < dj[0]:
+                out.append((d, False, "the partner is read after the entry was deleted, or re-inserted before it"))
+                continue
+            # the cursor starts one past the gap
+            init = blk[i - 1] if i else None
+            if not (isinstance(init, ast.Assign) and u(init) == f"{later} = {gap}.next_sub_offset()"):
+                out.append((d, None, "the statement before the loop does not start the cursor one past the gap"))
+                continue
+            out.append((d, True, ""))
+    return out
+
+
 def _prefix_walk(ctx, qual):
     """the walk over the sub-offsets 0, 1, 2, .. of a port that stops at the first one without an entry, in its canonical form
     (hv/canon.py: a cursor object advanced by next_sub_offset(), an itertools pipeline over count(), or a counter, coincide):
@@ -343,6 +412,13 @@ def r3_dense_suboffsets(ctx, hugr, file) -> None:
         # the helper looks the target sub-port up before deleting, and re-inserts at the vacated sub-offset
         ok = thas(h, "self._links.fwd[ANY_]") and any(call_name(c) == "insert_left" for c in calls_in(h))
         ctx.check(ok, "C04.R3", f"Hugr.{h.name}: re-keys later links", file, h.lineno, "", h)
+        for d, verdict, why in shift_steps(h):
+            if verdict is None:
+                ctx.note(f"C04.R3: {h.name}: shifting loop over {d} not followed ({why})")
+                continue
+            ctx.check(verdict, "C04.R3", f"Hugr.{h.name}: shift step ({d})", file, h.lineno,
+                      f"each round of the gap-closing loop over the {'source' if d == 'fwd' else 'target'} port must move the next link into the gap and advance "
+                      f"both cursors by one: {why}", h)
         dl = cm.get("delete_link")
         ok = dl is not None and any(call_name(c) == h.name for c in calls_in(dl))
         ctx.check(ok, "C04.R3", "Hugr.delete_link uses the removal helper", file, dl.lineno if dl else 1, "", dl)
@@ -509,7 +585,7 @@ def r6_r7_tables(ctx, hugr, file, only=None) -> None:
             except Opaque:
                 pass
         ctx.check(got == want, "C04.R7", f"Hugr.{name}", file, m.lineno, f"Hugr.{name} must be `{expr}` ({why})", m, expected=show(want), found=show(got), detail=show(got)[:160])
-    if only is not None:
+    if only is not None and "add_link" not in only:
         return
     al = hugr.methods.get("add_link")
     if al is None:
@@ -554,6 +630,8 @@ def r6_r7_tables(ctx, hugr, file, only=None) -> None:
     ctx.check(ok, "C04.R7", "Hugr.add_link: new link at the first free sub-offset of both ports", file, al.lineno,
               "add_link must insert (first unused sub-port of src) -> (first unused sub-port of dst); anything else overwrites an existing link or leaves a gap", al)
     order_link_rule(ctx, "C04.R6")
+    if only is not None:
+        return
     # direction tables (path summaries: match / isinstance / conditional expressions look the same)
     for name in ("_unused_sub_offset", "linked_ports"):
         m, _, _ = ctx.locate(f"{HQ}.{name}")
